@@ -45,6 +45,10 @@ CHECKS = {
          'Codec equality and mutual inversion on all byte strings <=2 and all alphabet strings <=3; for Base58Check every (version, length) pair '
          'round-trips and each injected fault (all 57L+L+58(L+1) single-character faults for selected strings, sampled for the rest, plus byte-level '
          'fragments) must be accepted, raise Base58ChecksumError or another Base58Error exactly as the reference rule says.', TRUST),
+ 'C11': ('fault_enumeration', 'enumeration of every single substitution / truncation / case-flip / insertion of generated addresses + drawn (thorough: exhaustive) double and triple/quadruple substitutions; differential vs an independent BIP173 decoder with GF(32) polynomial checksum, plus the absolute <=4-error rejection guarantee',
+         'Encoder equals the reference string; decoder verdict and payload equal an independent BIP173 implementation on every mutated string, on '
+         'checksum-valid strings over arbitrary 5-bit payloads (padding / length / version rules) and under related-but-different prefixes; every '
+         '<=4-substitution corruption and every mixed-case rendering must be rejected.', TRUST),
  'C13': ('exploration', 'Hypothesis differential vs an independent pure-Python secp256k1 / strict-DER / Base58Check reference; exhaustive prefix-byte enumeration for public keys',
          'Public-key derivation, WIF text and round trip on all four chains, strict-DER low-S validity of fresh library signatures, verify() on a '
          'ten-class (r,s) matrix and is_fullyvalid on 14 malformed-key classes are compared with a reference written from the curve equation.', TRUST),
